@@ -247,6 +247,17 @@ func (s *Session) ghostAssign(st *State, env *Env, a Assign) {
 	rhs := env.eval(a.RHS)
 	switch l := a.LHS.(type) {
 	case *EIdent:
+		if _, _, ok := s.ghostLocal(st, l.Name); ok {
+			fr := st.fr
+			for fr.parent != nil {
+				fr = fr.parent
+			}
+			if fr.glocals == nil {
+				fr.glocals = map[string]Term{}
+			}
+			fr.glocals[l.Name] = rhs.T
+			return
+		}
 		g := env.ghostDecl(l.Name)
 		if g == nil {
 			fatalf("%s: ghost assignment to unknown ghost %s", s.name, l.Name)
@@ -286,8 +297,18 @@ func (s *Session) applyContract(st *State, con *Contract, callee *ssa.Function, 
 	short := relSuffix(name)
 	env := s.calleeEnv(st, con, callee, args, false)
 	s.bindArgs(env, sig, callee, args, callee == nil)
+	// the callee's per-activation ghost variables are existentially quantified for the caller
+	for _, gl := range con.GhostLocals {
+		t := s.P.resolveType(env.pkg, gl.Type)
+		env.vars[gl.Name] = EVal{T: s.freshTyped(st, "gl_"+gl.Name, t), Ty: t}
+	}
 	cs := s.callsiteSpec(name)
 	cenv := s.callerEnv(st)
+	for k, v := range env.vars {
+		if strings.HasPrefix(k, "arg") || k == "recv" {
+			cenv.vars[k] = v
+		}
+	}
 	if cs != nil {
 		for _, a := range cs.AssumePre {
 			s.note("assumed before the call of " + short + ": " + a.Src)
@@ -392,6 +413,11 @@ func (s *Session) applyContract(st *State, con *Contract, callee *ssa.Function, 
 		cenv2 := s.callerEnv(st)
 		cenv2.old = old
 		cenv2.result = env.result
+		for k, v := range env.vars {
+			if strings.HasPrefix(k, "arg") || k == "recv" {
+				cenv2.vars[k] = v
+			}
+		}
 		for _, a := range cs.Assume {
 			s.note("assumed at call of " + short + ": " + a.Src)
 			st.assume(s.evalBool(st, cenv2, a.E, a.Src))
@@ -554,6 +580,19 @@ func (s *Session) havocLoop(st *State, li *loopInfo) {
 		if itv, ok := fr.regs[r]; ok {
 			it := itv.(*Iter)
 			st.seen[it.id] = s.fresh("seen", ArrSort(sortOf(it.MT.Key()), SBool))
+		}
+	}
+	if s.con != nil && len(s.con.GhostLocals) > 0 {
+		top := fr
+		for top.parent != nil {
+			top = top.parent
+		}
+		if top.glocals == nil {
+			top.glocals = map[string]Term{}
+		}
+		for _, g := range s.con.GhostLocals {
+			t := s.P.resolveType(s.fn.Pkg.Pkg, g.Type)
+			top.glocals[g.Name] = s.freshTyped(st, "gl_"+g.Name, t)
 		}
 	}
 	// counters that may change in the loop become unknown
